@@ -474,10 +474,15 @@ def run(chk):
     cases, closure_info = [], {}
     descs = {}
     for model in MODELS:
-        m, _ = _build(model)
-        descs[model] = _Desc(model, m)
+        try:
+            m, _ = _build(model)
+            descs[model] = _Desc(model, m)
+        except Exception as e:      # the implementation cannot even build the model under test
+            chk.violation('C11:crash:%s' % type(e).__name__,
+                          'building the %s model raised %s: %s' % (model, type(e).__name__, str(e)[:200]),
+                          {'kind': 'sequence', 'model': model, 'ops': []})
     info = _closure(chk, descs, 6000)
-    for model in MODELS:
+    for model in descs:
         i = info[model]
         closure_info[model] = {'abstract_states': len(i['seen']), 'sequences': len(i['edges']),
                                'max_length': i['depth'], 'closed': not i['frontier']}
@@ -487,6 +492,12 @@ def run(chk):
         short = [[a, b] for a in alphabet for b in alphabet]
         have = {tuple(c['ops']) for c in cases if c['model'] == model}
         cases += [{'model': model, 'ops': s} for s in short if tuple(s) not in have]
+        if not chk.quick:
+            # thorough: every sequence of length 3 literally, and a sample of those of length 4
+            have = {tuple(c['ops']) for c in cases if c['model'] == model}
+            cases += [{'model': model, 'ops': [a, b, c]} for a in alphabet for b in alphabet for c in alphabet
+                      if (a, b, c) not in have]
+            cases += [{'model': model, 'ops': [rng.choice(alphabet) for _ in range(4)]} for _ in range(2000)]
         n_walks = 25 if chk.quick else 400
         for _ in range(n_walks):
             cases.append({'model': model, 'ops': [rng.choice(alphabet) for _ in range(rng.randint(3, 8 if chk.quick else 12))]})
@@ -495,7 +506,7 @@ def run(chk):
     _compare(chk, cases, results)
     if chk.proof_broken or chk.corr_disagreements:
         more = []
-        for model in MODELS:
+        for model in descs:
             alphabet = ALPHABET[_method(model)]
             for _ in range(150 if chk.quick else 1500):
                 more.append({'model': model, 'ops': [rng.choice(alphabet) for _ in range(rng.randint(1, 10))]})
@@ -535,7 +546,7 @@ def replay(data):
     _oracle(rec, case, res)
     print('model %s, calls: %s' % (c['model'], [_opname(op) + (':=' + op[1] if op[0] in 'FRDC' and len(op) == 2 else
                                                               ('=' + op.split(':')[1] if ':' in op else '')) for op in c['ops']]))
-    hits = [v for v in rec.violations if v[0] == data.get('key')] or rec.violations
+    hits = [v for v in rec.violations if v[0] == data.get('key')]
     for key, what, _ in hits[:5]:
         print('%s: %s' % (key, what))
     if not hits:
